@@ -85,6 +85,43 @@ func (c01) Gen(r *Rng, tier string, emit func(string, Tok)) {
 		}
 		emit("af-sizes", muxCaseTok(7, ops))
 	}
+	// first-packet adaptation fields that leave exactly, one less and one more than the room the PES header needs (the
+	// boundary between "header in the first packet" and "adaptation field alone in a packet of its own"), with and
+	// without PCR, with the random access indicator set and cleared, on the PCR PID and on another PID
+	{
+		var ops []muxOp
+		ops = append(ops, muxOp{kind: opAdd, es: &astits.PMTElementaryStream{ElementaryPID: 0x104, StreamType: astits.StreamTypeH264Video}},
+			muxOp{kind: opAdd, es: &astits.PMTElementaryStream{ElementaryPID: 0x105, StreamType: astits.StreamTypeAACAudio}}, muxOp{kind: opSetPCR, pid: 0x104})
+		hdrs := []*astits.PESOptionalHeader{
+			{MarkerBits: 2},
+			{MarkerBits: 2, PTSDTSIndicator: astits.PTSDTSIndicatorOnlyPTS, PTS: &astits.ClockReference{Base: 90000}},
+			{MarkerBits: 2, PTSDTSIndicator: astits.PTSDTSIndicatorBothPresent, PTS: &astits.ClockReference{Base: 90000}, DTS: &astits.ClockReference{Base: 80000}},
+		}
+		for hi, oh := range hdrs {
+			hlen := []int{9, 14, 19}[hi]
+			for _, pcr := range []bool{true, false} {
+				fixed := 2 + 1 // length byte, flags, private data length byte
+				if pcr {
+					fixed += 6
+				}
+				exact := 184 - hlen - fixed
+				for n := exact - 2; n <= exact+2; n++ {
+					for _, rai := range []bool{false, true} {
+						for _, pid := range []uint16{0x104, 0x105} {
+							af := &astits.PacketAdaptationField{RandomAccessIndicator: rai, HasTransportPrivateData: true, TransportPrivateData: r.Bytes(n), TransportPrivateDataLength: n}
+							if pcr {
+								af.HasPCR, af.PCR = true, &astits.ClockReference{Base: int64(n) * 1000, Extension: 7}
+							}
+							h := *oh
+							ops = append(ops, muxOp{kind: opData, d: &astits.MuxerData{PID: pid, AdaptationField: af, PES: &astits.PESData{Data: r.Bytes(r.Range(1, 300)),
+								Header: &astits.PESHeader{OptionalHeader: &h}}}})
+						}
+					}
+				}
+			}
+		}
+		emit("af-exact-fit", muxCaseTok(13, ops))
+	}
 	// typed descriptors in the PMT, handed to AddElementaryStream as a caller writes them (struct Length correct, 0 or
 	// wrong; zero-item bodies): every PMT that comes out must list them in parsed form (C01_roundtrip_typed_desc_written)
 	for k := 0; k < scale(tier, 24, 240); k++ {
